@@ -29,9 +29,23 @@ import (
 
 const (
 	verifDir = "/verif"
-	repoDir  = "/repo"
 	goNew    = "go1.26.8"
 )
+
+// Development overrides (never used by registered checks): an alternative
+// simulator/harness source tree, output directory and repository.
+var (
+	repoDir = envOr("VERIF_REPO_DIR", "/repo")
+	simDir  = envOr("VERIF_SIM_DIR", filepath.Join(verifDir, "sim"))
+	outDir  = envOr("VERIF_OUT_DIR", verifDir)
+)
+
+func envOr(k, d string) string {
+	if v := os.Getenv(k); v != "" {
+		return v
+	}
+	return d
+}
 
 func die(code int, format string, a ...interface{}) {
 	fmt.Fprintf(os.Stderr, "vdriver: "+format+"\n", a...)
@@ -139,7 +153,7 @@ func buildHarness(race bool) string {
 	simgen := ensureSimgen()
 	h := sha256.New()
 	hashTree(h, repoDir, "go.mod", "go.sum", "cmd", "pkg")
-	hashTree(h, filepath.Join(verifDir, "sim"), ".")
+	hashTree(h, simDir, ".")
 	if b, err := os.ReadFile(simgen); err == nil {
 		s := sha256.Sum256(b)
 		fmt.Fprintf(h, "simgen %x\n", s)
@@ -177,11 +191,11 @@ func buildHarness(race bool) string {
 			die(2, "copy %s: %v", rel, err)
 		}
 	}
-	if err := copyTree(filepath.Join(verifDir, "sim"), filepath.Join(scratch, "vsim")); err != nil {
+	if err := copyTree(simDir, filepath.Join(scratch, "vsim")); err != nil {
 		die(2, "copy sim: %v", err)
 	}
 	// extra module requirements of the harness (porcupine)
-	if extra, err := os.ReadFile(filepath.Join(verifDir, "sim", "go.sum.extra")); err == nil {
+	if extra, err := os.ReadFile(filepath.Join(simDir, "go.sum.extra")); err == nil {
 		f, _ := os.OpenFile(filepath.Join(scratch, "go.sum"), os.O_APPEND|os.O_WRONLY, 0o644)
 		f.Write(extra)
 		f.Close()
@@ -700,8 +714,8 @@ func cmdCheck(args []string) {
 			}
 			continue
 		}
-		os.MkdirAll(filepath.Join(verifDir, "replays"), 0o755)
-		dst := filepath.Join(verifDir, "replays", fmt.Sprintf("%s-%s-seed%d.json", id, slug(strings.TrimPrefix(c, id+"/")), seed))
+		os.MkdirAll(filepath.Join(outDir, "replays"), 0o755)
+		dst := filepath.Join(outDir, "replays", fmt.Sprintf("%s-%s-seed%d.json", id, slug(strings.TrimPrefix(c, id+"/")), seed))
 		b, _ := os.ReadFile(final)
 		os.WriteFile(dst, b, 0o644)
 		var f failure
@@ -834,8 +848,8 @@ func writeEvidence(id, tier string, seed uint64, p propInfo, ag *agg, wall time.
 		"violations":  violations,
 	}
 	b, _ := json.MarshalIndent(ev, "", " ")
-	os.MkdirAll(filepath.Join(verifDir, "evidence"), 0o755)
-	if err := os.WriteFile(filepath.Join(verifDir, "evidence", id+".json"), b, 0o644); err != nil {
+	os.MkdirAll(filepath.Join(outDir, "evidence"), 0o755)
+	if err := os.WriteFile(filepath.Join(outDir, "evidence", id+".json"), b, 0o644); err != nil {
 		die(2, "evidence: %v", err)
 	}
 }
